@@ -54,6 +54,8 @@ pub struct Net {
     /// of a link generate before either message is delivered)
     pub crossing: bool,
     pub crash_restores: u64,
+    /// which peers were crash-restored at least once
+    pub crashed: Vec<bool>,
 }
 
 pub fn ends(l: &Link, from: usize) -> usize {
@@ -96,6 +98,7 @@ impl Net {
             readonly_receives: 0,
             crossing: false,
             crash_restores: 0,
+            crashed: vec![],
         }
     }
 
@@ -181,8 +184,28 @@ impl Net {
         }
         let ro = l.ro[1 - e];
         let before = if ro { Some((self.docs[to].save(), self.docs[to].get_heads())) } else { None };
+        if self.verbose && std::env::var("VERIF_DUMP").is_ok() && !m.changes.is_empty() {
+            let _ = std::fs::create_dir_all("/verif/out/dump/net");
+            let n = self.msgs_delivered;
+            let mut joined = vec![];
+            for c in m.changes.iter() {
+                joined.extend_from_slice(c);
+            }
+            let _ = std::fs::write(format!("/verif/out/dump/net/{n:05}-to-P{to}.bin"), joined);
+        }
         let r = self.docs[to].sync().receive_sync_message(&mut l.st[1 - e], m);
         self.msgs_delivered += 1;
+        if self.verbose && std::env::var("VERIF_DEBUG_RELOAD").is_ok() {
+            let mut c = self.docs[to].clone();
+            let enc = automerge::ReadDoc::text_encoding(&c);
+            let a = crate::obs::observe_opts(&c, None, false).snap;
+            if let Ok(l) = crate::util::load_enc(&c.save(), enc) {
+                let b = crate::obs::observe_opts(&l, None, false).snap;
+                if a != b {
+                    eprintln!("  !! after delivery #{} to P{to}: in-memory state differs from load(save()): {:?}", self.msgs_delivered, crate::obs::first_diff(&a, &b));
+                }
+            }
+        }
         if let Err(err) = &r {
             self.receive_errors.push(format!("P{to} receive over L{li}: {err}"));
         }
@@ -205,7 +228,10 @@ impl Net {
 
     pub fn edit(&mut self, p: usize, rng: &mut Rng, n: usize) {
         for _ in 0..n {
-            let _ = random_edit(&mut self.docs[p], rng, &mut self.gs);
+            let e = random_edit(&mut self.docs[p], rng, &mut self.gs);
+            if self.verbose {
+                eprintln!("  |   P{p}: {} -> {}", e.desc, if e.ok { "ok".to_string() } else { format!("Err({})", e.err.clone().unwrap_or_default()) });
+            }
         }
         self.time += 1;
         let t = self.time;
@@ -288,8 +314,18 @@ impl Net {
         for li in &mine {
             self.drop_link(*li);
         }
+        if self.verbose && std::env::var("VERIF_DUMP").is_ok() {
+            let _ = std::fs::create_dir_all("/verif/out/dump/net");
+            let mut c = older.clone();
+            let _ = std::fs::write(format!("/verif/out/dump/net/{:05}-restore-P{p}.bin", self.msgs_delivered), c.save());
+            let _ = std::fs::write(format!("/verif/out/dump/net/{:05}-restore-P{p}.actor", self.msgs_delivered), c.get_actor().to_hex_string());
+        }
         self.docs[p] = older;
         self.crash_restores += 1;
+        if self.crashed.len() < self.docs.len() {
+            self.crashed.resize(self.docs.len(), false);
+        }
+        self.crashed[p] = true;
         let s = format!("crash P{p}: restarted from an older document copy");
         self.note(s);
         for li in mine {
